@@ -55,15 +55,21 @@ def run(ctx):
         cases = PC.build_cases(rng, 300 if thorough else 40, small_atoms=1)
         nover = 0
         nskip_hex = 0
+        budget = 2.5e8 if thorough else 6e7     # ~1e7 units per second of model time
+        big_heads = 4 if thorough else 0
         for c in all_cases:
             total = sum(len(r) for r in c["reads"])
             # the model prints every carry field after every read and its regex
             # matcher costs ~65 us per byte of a header line: bound the volume
             # (the search below runs every case on the real code regardless)
-            if len(c["reads"]) * total > (60000000 if thorough else 6000000):
+            vol = len(c["reads"]) * total
+            if vol > 7e7 or vol > budget:
                 continue
-            if total > (300000 if thorough else 70000) and c["kind"].startswith("head-terminated"):
-                continue
+            if total > 70000 and c["kind"].startswith("head-terminated"):
+                if big_heads <= 0:
+                    continue
+                big_heads -= 1
+            budget -= vol
             # a chunk size of thousands of hex digits: the extracted model computes
             # firstn (N.to_nat rm) with a unary nat and cannot run it (the Coq term is
             # fine and covered by the theorems); searched on the real code below
